@@ -156,13 +156,15 @@ impl DynS {
     }
 }
 
-/// `dyn <id> kind=co|st|pr|co_att|st_att|dummy_<SEM> [factor=f] hist=A1;+1>2;?dc1:5;?ds0:5;R1;...`
+/// `dyn <id> kind=co|st|pr|co_att|st_att|dummy_<SEM> [factor=f] [fault=k] hist=A1;+1>2;?dc1:5;?ds0:5;R1;...`
 /// query token: `?dc<cert>:<label>` / `?ds<cert>:<label>`
 pub fn run(_id: &str, p: &HashMap<String, String>, out: &mut Vec<String>) {
     let kind = p["kind"].as_str();
     let factor: f64 = p.get("factor").map(|s| s.parse().unwrap()).unwrap_or(2.0);
     let trace = p.get("trace").map(|s| s != "0").unwrap_or(false);
-    rec::reset(0, 200000, "cadical", trace);
+    // fault=k: the k-th SAT call of the whole history returns Unknown; the history stops at the call that unwinds
+    let fault: usize = p.get("fault").map(|s| s.parse().unwrap()).unwrap_or(0);
+    rec::reset(fault, 200000, "cadical", trace);
     let mut shadow: AAFramework<usize> = AAFramework::default();
     let ctor = p.get("ctor").map(|s| s.as_str()).unwrap_or("");
     let mut s = match catch_unwind(AssertUnwindSafe(|| match ctor {
@@ -207,7 +209,12 @@ pub fn run(_id: &str, p: &HashMap<String, String>, out: &mut Vec<String>) {
                     };
                     out.push(format!("ans ACC status={} cert={} members={}", if st { "YES" } else { "NO" }, cs, if mem { 1 } else { 0 }));
                 }
-                Err(e) => out.push(format!("panic {}", util::panic_msg(e))),
+                Err(e) => {
+                    out.push(format!("panic {}", util::panic_msg(e)));
+                    if fault > 0 {
+                        break;
+                    }
+                }
             }
         } else {
             let op = &fw::parse_ops(tok)[0];
